@@ -82,7 +82,31 @@ def gen_games(run, tak):
             ps, ms = _wpa.playout(tak, rng, cfg, plies, stop_at_end=rng.random() < 0.6,
                                   slide_bias=rng.choice([0.3, 0.5, 0.7]))
             out.append((cfg, ps, ms))
+    # tiny and capstone-rich small configurations: short games, played on after the game is decided, slide-heavy
+    # (reserves run out, capstones meet walls of both colours within a few plies)
+    tiny = [tak.Config(size=3, pieces=a, capstones=b) for a in range(1, 4) for b in range(0, 2)]
+    rich = [tak.Config(size=3, pieces=5, capstones=2), tak.Config(size=4, pieces=6, capstones=2),
+            tak.Config(size=5, pieces=6, capstones=3)]
+    for cfg in tiny + rich:
+        for _ in range(5 if run.quick else 60):
+            ps, ms = _wpa.playout(tak, rng, cfg, rng.choice([12, 30, 50]), stop_at_end=False,
+                                  slide_bias=rng.choice([0.5, 0.7]))
+            out.append((cfg, ps, ms))
     return out
+
+
+def smashes(ps, ms):
+    """(walls flattened, of which the mover's own) along a game"""
+    a = b = 0
+    for p, m in zip(ps, ms):
+        if m.type.is_slide():
+            dx, dy = m.type.direction()
+            X, Y = m.x + len(m.slides) * dx, m.y + len(m.slides) * dy
+            old = p.board[Y * p.size + X]
+            if old and old[0].kind.value == 1:
+                a += 1
+                b += old[0].color == p.to_move()
+    return a, b
 
 
 def audit_game(run, cfg, ps, ms, label, reported):
@@ -174,6 +198,11 @@ def correspondence(run):
         nbad += audit_game(run, cfg, ps, ms, "playout", reported)
         npos += len(ps)
         nslides += sum(1 for m in ms if m.type.is_slide())
+        sa, sb = smashes(ps, ms)
+        dist["walls-flattened"] = dist.get("walls-flattened", 0) + sa
+        dist["own-walls-flattened"] = dist.get("own-walls-flattened", 0) + sb
+        dist["positions-with-an-exhausted-stone-reserve"] = dist.get("positions-with-an-exhausted-stone-reserve", 0) + \
+            sum(1 for p in ps if any(s.stones == 0 for s in p.stones))
         dist[f"size{cfg.size}"] = dist.get(f"size{cfg.size}", 0) + len(ps)
         cs.add(game_term(cfg, ps, ms), {"config": _wpa.j_cfg(cfg), "moves": [takio.j_move(m) for m in ms],
                                          "final": takio.j_pos(ps[-1])})
